@@ -637,14 +637,18 @@ class PenlogReader:
                 if self.current_priority <= priority:
                     yield self.current_record
         else:
-            while True:
+            # Walk from the last record (or from record ``offset``, if one
+            # is given) back to the first one; never wrap around.
+            n_records = len(self)
+            if offset == 0:
+                start = n_records - 1
+            else:
+                start = offset if offset > 0 else n_records + offset
+            for index in range(start, -1, -1):
+                self.seek_to_record(index)
                 self.readline()
                 if self.current_priority <= priority:
                     yield self.current_record
-                try:
-                    self.seek_to_previous_record()
-                except IndexError:
-                    break
 
     def readline(self) -> bytes:
         self._current_record = None
